@@ -126,6 +126,14 @@ func init() {
 					for k := 0; k < len(alphabet); k++ {
 						ct(c, &c17Text{Text: t[:i] + alphabet[k:k+1] + t[i:], Origin: t, Class: "insert"})
 					}
+					// characters a tolerant reader might drop or fold: invisible format characters, other
+					// white space, control characters, digits and letters of other scripts
+					for _, x := range c17Exotic {
+						ct(c, &c17Text{Text: t[:i] + x + t[i:], Origin: t, Class: "insert-non-ascii"})
+						if i < len(t) && e%3 == 0 {
+							ct(c, &c17Text{Text: t[:i] + x + t[i+1:], Origin: t, Class: "substitute-non-ascii"})
+						}
+					}
 				}
 				ct(c, &c17Text{Text: t[:len(t)-8], Origin: t, Class: "no-checksum"})
 				ct(c, &c17Text{Text: strings.ToUpper(t), Origin: t, Class: "upper"})
@@ -357,6 +365,8 @@ func c17Validate(c *mon.Ctx, text string) {
 }
 
 var c17Judged int
+
+var c17Exotic = []string{"\ufeff", "\u200b", "\u200d", "\u00ad", "\u200e", "\u2060", "\u00a0", "\u3000", "\t", "\n", "\r", "\x00", "\x7f", "\uff11", "\u0661", "\uff41", "\u0430", "\xff", "\xc0\x80"}
 
 var (
 	c17RefOrigin string
